@@ -2157,9 +2157,12 @@ ure_write_dfa(ure_dfa_t dfa, FILE *out)
   }
 }
 
-#define _ure_issep(cc) _ure_matches_properties(cc, _URE_SEPARATOR)
 #define _ure_isbrk(cc) ((cc) == '\n' || (cc) == '\r' || (cc) == 0x2028 ||\
                         (cc) == 0x2029)
+/* zvbi: _ure_matches_properties() no longer knows _URE_SEPARATOR (and the
+   arguments were swapped here); the only separators in a Teletext page
+   haystack are the line breaks. */
+#define _ure_issep(cc) _ure_isbrk(cc)
 
 int
 #ifdef __STDC__
